@@ -413,6 +413,12 @@ fn emit_block(a: &mut Asm, rng: &mut Rng, o: &ProgOpts, funcs: &[usize], n: u64,
                 a.bind(t2);
                 a.shape.push('K');
             }
+            11 if o.calls && o.stack_ops && depth < 2 => {
+                // get-PC idiom: a CALL that no RET ever matches, with a balanced stack:  call next ; next: pop r
+                a.b.extend_from_slice(&[0xe8, 0, 0, 0, 0]);
+                a.pop(pick_reg(rng, &o.reserved));
+                a.shape.push('G');
+            }
             8 if o.syscalls => {
                 // mov eax, nr ; (rdi := 0 | data pointer) ; syscall
                 if !o.reserved.contains(&0) && !o.reserved.contains(&7) && rng.below(4) != 0 {
@@ -424,7 +430,13 @@ fn emit_block(a: &mut Asm, rng: &mut Rng, o: &ProgOpts, funcs: &[usize], n: u64,
                         a.b.extend_from_slice(&[0x48, 0x89, 0xdf]); // mov rdi, rbx
                     }
                 }
-                a.b.extend_from_slice(&[0x0f, 0x05]);
+                // the OS-interface instructions: syscall mostly, sometimes int n / int1 / int3
+                match rng.below(8) {
+                    0 => a.b.extend_from_slice(&[0xcd, 0x80]),
+                    1 => a.b.push(0xf1),
+                    2 => a.b.push(0xcc),
+                    _ => a.b.extend_from_slice(&[0x0f, 0x05]),
+                }
                 a.shape.push('y');
             }
             9 => {
